@@ -404,9 +404,11 @@ def r15_8(ctx):
     if not tests:
         ctx.ok(construct + " (no explicit check; covered by the sink analysis R15.1)", h.loc(), nontrivial=False)
     else:
-        tl = repo.enclosing_stmt(tests[0]).lineno
-        early = [u for u in uses if u.lineno < tl]
-        (ctx.bad(construct, f"`{param}` is used at line {early[0].lineno} before it is checked to be a list of strings: a string that merely contains \"all\" "
+        fl = Flow(h.node, resolver=Resolver(h.node)).run()
+        key = f"isinstance({param}, list)"
+        early = [u for u in uses if not any(u is x for x in ast.walk(tests[0]))
+                 and (key, True) not in (fl.guards_at(u) or set())]
+        (ctx.bad(construct, f"`{param}` is used at line {early[0].lineno} where it is not known to be a list: a string that merely contains \"all\" "
                  "resets the whole configuration, a number raises TypeError", h.loc(early[0])) if early else ctx.ok(construct, h.loc(tests[0])))
 
 
